@@ -55,8 +55,7 @@ NOT covered by this tier
 * non-binary masks (values other than 0/1/True/False), radius <= 0 for `get_volume_searchlight` (the in-mask fraction of an
   empty searchlight is undefined), centres outside the volume, zero centres for `get_searchlight_RDMs`.
 * RDM methods with an explicit cross-validation descriptor or a noise precision (poisson_cv, mahalanobis with noise):
-  `get_searchlight_RDMs` has no argument to pass them.  crossnobis is covered with its DEFAULT folds on balanced designs and
-  equal-size searchlights.
+  `get_searchlight_RDMs` has no argument to pass them.  crossnobis is covered with its DEFAULT folds on balanced designs.
 * real worker schedules: only the schedules that happen with the delays above on this machine are observed; order
   independence in general rests on joblib's ordering contract (tier A assumption).
 
@@ -928,6 +927,9 @@ def tier_c(run, thorough):
             bd.check(orc_sl_rdms, dict(seed=900 + k, n_centers=n_centers, method='crossnobis', events=events, n_cond=n_cond, reps=reps,
                                        nb_min=4, nb_max=4, event_order=order, centre_order=('sorted', 'unsorted')[k % 2]),
                      'unchunked,crossnobis,default-folds', function='get_searchlight_RDMs')
+        bd.check(orc_sl_rdms, dict(seed=950 + k, n_centers=5, method='crossnobis', events=events, n_cond=n_cond, reps=reps,
+                                   nb_min=2, nb_max=6, event_order=order, centre_order=('sorted', 'unsorted')[k % 2]),
+                 'unchunked,crossnobis,default-folds,ragged-searchlights', function='get_searchlight_RDMs')
     # typed data (image files hold int16 / uint8 / float32): the result is the float64 formula on the stored values.
     # float32 only with one observation per event (numpy averages float32 rows in float32: a precision question, not claimed)
     for k, (dt, events, n_cond, reps) in enumerate([('int16', 'int', 4, 1), ('int16', 'str', 3, 2), ('uint8', 'int-gaps', 4, 1),
